@@ -12,6 +12,7 @@ mod psetcodec;
 mod psetmerge;
 mod psetview;
 mod scalar;
+mod script;
 mod sha256c;
 mod sighash;
 mod taproot;
@@ -74,6 +75,9 @@ fn main() {
         ("taproot", "replay") => taproot::replay(rest, &mut out),
         ("taproot", "deep") => taproot::deep(rest, &mut out),
         ("taproot", "huffman") => taproot::huffman(rest, &mut out),
+        ("script", "sequences") => script::sequences(rest, &mut out),
+        ("script", "numbers") => script::numbers(rest, &mut out),
+        ("script", "templates") => script::templates(rest, &mut out),
         ("dynafed", "record") => dynafed::record(rest, &mut out),
         (m, c) => {
             eprintln!("unknown command {} {}", m, c);
